@@ -133,7 +133,7 @@ HeaderError(r, sub) == ErrorClose(SendOn(r, "NOTIFICATION", 1, sub, "N"))
 NegotiateHold(r, h) ==
    LET nh == IF r.hold < h THEN r.hold ELSE h
        r1 == [r EXCEPT !.hold = nh]
-   IN IF nh # 0 /\ nh < 3 THEN OpenMessageError(r1, 6) ELSE r1
+   IN IF h # 0 /\ h < 3 THEN OpenMessageError(r1, 6) ELSE r1      \* the proposed value is what is rejected (RFC 4271 4.2)
 
 \* FSM.keep_alive_received
 KeepAliveReceived(r) ==
